@@ -742,6 +742,7 @@ func replayMain(c *Check, path string) int {
 		return 2
 	}
 	debug.SetMaxStack(64 << 20)
+	runtime.GOMAXPROCS(2) // as in the worker processes (code under test may read it)
 	if c.WorkerInit != nil {
 		c.WorkerInit()
 	}
